@@ -21,7 +21,7 @@
     Which inventory entries (gen/C15_inventory.json, printed in the evidence) have such a theorem and
     which are covered by correspondence + judge only is listed at the end of this file. *)
 From Coq Require Import ZArith List Bool String.
-From V Require Import Base.Int Base.IO Spec.Gregorian Model.Strftime Proofs.C15 Proofs.C15Owners Proofs.C15Strftime Proofs.C15Wide Proofs.C15Text Proofs.C15Utf8 Proofs.C15SfItems Proofs.C15Deep Proofs.C15Format.
+From V Require Import Base.Int Base.IO Spec.Gregorian Model.Strftime Proofs.C15 Proofs.C15Owners Proofs.C15Strftime Proofs.C15Wide Proofs.C15Text Proofs.C15Utf8 Proofs.C15SfItems Proofs.C15Deep Proofs.C15Format Proofs.C15Errors.
 From V Require Model.Date Model.Time Model.DateTime Model.TimeDelta Model.DateExtra Model.Parsed Model.Parse Model.Rfc3339 Model.Show Model.Round Model.C02 Model.C15 Model.C19 Gen.Strftime
                Base.Utf8 Model.Scan Model.FromStr Model.Rfc2822 Model.Format Proofs.C12 Proofs.C13Total Proofs.C13Time Proofs.C14.
 Import ListNotations.
@@ -680,6 +680,30 @@ Theorem C15_show_dtz_total : forall utc a,
 Proof. exact show_dtz_total. Qed.
 Print Assumptions C15_show_dtz_total.
 
+(** ** Display / Debug of the error types, Debug of IsoWeek and of WeekdaySet (ops c15.errtext, c15.isoweek.dbg, c15.wdset.dbg; Proofs/C15Errors.v).  The impls write a literal (read from the sources by the translator: Gen/ErrText.v) or format two integers; there is no failing step in the model, so to_string() / format!("{:?}") of these values cannot panic on a writer error.  [err_dom which variant]: the selector names a value of an error type -- which 0 ParseError (variant = ParseErrorKind 0..6), 1 / 2 OutOfRange Display / Debug, 3 / 4 ParseMonthError, 5 / 6 ParseWeekdayError, 7 RoundingError (variant 0..2), 8 OutOfRangeError *)
+(* every value of every error type has a text: a non-empty well-formed string *)
+Theorem C15_error_texts_total : forall which variant, 
+  err_dom which variant = true ->
+  exists t, Model.C15.err_text which variant = Some t /\ Base.Utf8.utf8_valid t = true /\ t <> [].
+Proof. exact error_texts_total. Qed.
+Print Assumptions C15_error_texts_total.
+(* and no other selector has one *)
+Theorem C15_error_texts_domain : forall which variant, 
+  err_dom which variant = false -> Model.C15.err_text which variant = None.
+Proof. exact error_texts_domain. Qed.
+Print Assumptions C15_error_texts_domain.
+(* format!("{:?}", date.iso_week()) for every date (the ISO week exists: C15_fact_iso_week_total) *)
+Theorem C15_isoweek_debug_total : forall d, 
+  date_valid d -> returns (Model.C15.isoweek_debug d).
+Proof. exact isoweek_debug_total. Qed.
+Print Assumptions C15_isoweek_debug_total.
+(* Debug of WeekdaySet: the prefix, exactly seven binary digits, the suffix *)
+Theorem C15_wdset_debug_total : forall bits, 
+  exists ds, Model.C15.wdset_debug bits = Gen.ErrText.ET_WDSET_PRE ++ ds ++ Gen.ErrText.ET_WDSET_POST /\
+             List.length ds = 7%nat /\ Forall (fun c => c = 48 \/ c = 49) ds.
+Proof. exact wdset_debug_total. Qed.
+Print Assumptions C15_wdset_debug_total.
+
 (** ** The format-string iterator NEVER TRAPS (dedicated proof, Proofs/C15Strftime.v: every slice of strftime.rs is taken at a character boundary of the well-formed input, the index arithmetic stays in usize, assert!(nextspec > 0) holds), strict or lenient, with or without the repair of error(); with C12's termination theorem: it yields a finite item list of at most 13 items per byte, and StrftimeItems::parse / parse_to_owned / count return *)
 Theorem C15_strftime_never_panics : forall s lenient fuel, 
   valid s = true -> blen s <= u64_max ->
@@ -742,6 +766,12 @@ Example C15_wide_hypotheses_inhabited :
 Proof. exact wide_hypotheses_inhabited. Qed.
 Print Assumptions C15_wide_hypotheses_inhabited.
 
+Example C15_errors_hypotheses_inhabited :
+  err_dom 0 6 = true /\ err_dom 8 1 = false /\ date_valid Model.Date.D_MAX /\
+  Model.C15.wdset_debug 5 = B"WeekdaySet(0000101)".
+Proof. exact errors_hypotheses_inhabited. Qed.
+Print Assumptions C15_errors_hypotheses_inhabited.
+
 (* ... and those of the text entry points (Proofs/C15Deep.v): [ex_fmt] = "%a, %d %b %Y %T %z \u00e9", [ex_text] = "Tue, 01 Jul 2003 10:52:37 +0200 \u00e9" *)
 Example C15_deep_hypotheses_inhabited :
   str_ok ex_fmt /\ str_ok ex_text /\ Gen.Strftime.SF_ERROR_CONSUMES = true /\
@@ -802,6 +832,11 @@ Print Assumptions C15_deep_hypotheses_inhabited.
      C15_dtz_with_time_field_total
        <DateTime<Tz> as Timelike>::with_hour; <DateTime<Tz> as Timelike>::with_minute;
        <DateTime<Tz> as Timelike>::with_second; <DateTime<Tz> as Timelike>::with_nanosecond;
+     C15_error_texts_total
+       <ParseError as fmt::Display>::fmt; <OutOfRange as fmt::Display>::fmt; <OutOfRange as fmt::Debug>::fmt;
+       <ParseMonthError as fmt::Display>::fmt; <ParseMonthError as fmt::Debug>::fmt;
+       <RoundingError as fmt::Display>::fmt; <OutOfRangeError as fmt::Display>::fmt;
+       <ParseWeekdayError as fmt::Display>::fmt; <ParseWeekdayError as fmt::Debug>::fmt;
      C15_fixed_offset_ctor_total
        FixedOffset::east_opt; FixedOffset::west_opt;
      C15_fixed_offset_from_str_total
@@ -824,6 +859,8 @@ Print Assumptions C15_deep_hypotheses_inhabited.
        NaiveDate::from_ymd_opt;
      C15_from_yo_opt_total
        NaiveDate::from_yo_opt;
+     C15_isoweek_debug_total
+       <IsoWeek as fmt::Debug>::fmt;
      C15_mlt_selectors
        MappedLocalTime<T>::single; MappedLocalTime<T>::earliest; MappedLocalTime<T>::latest;
      C15_month_num_days_total
@@ -928,6 +965,8 @@ Print Assumptions C15_deep_hypotheses_inhabited.
        DateTime<Tz>::to_rfc3339;
      C15_tz_timestamp_total
        TimeZone::timestamp_opt; TimeZone::timestamp_millis_opt; TimeZone::timestamp_micros;
+     C15_wdset_debug_total
+       <WeekdaySet as Debug>::fmt;
      C15_week_total
        NaiveWeek::checked_first_day; NaiveWeek::checked_last_day; NaiveWeek::checked_days;
      C15_weekday_month_conversions
@@ -1020,11 +1059,5 @@ Print Assumptions C15_deep_hypotheses_inhabited.
        serde::ts_microseconds::serialize#2; serde::ts_milliseconds::serialize#2; serde::ts_seconds::serialize#2;
 
    correspondence + judge ONLY:
-     none: outside C15 stream
-       <ParseError as fmt::Display>::fmt; <OutOfRange as fmt::Display>::fmt; <OutOfRange as fmt::Debug>::fmt;
-       <ParseMonthError as fmt::Display>::fmt; <ParseMonthError as fmt::Debug>::fmt;
-       <IsoWeek as fmt::Debug>::fmt; <RoundingError as fmt::Display>::fmt;
-       <OutOfRangeError as fmt::Display>::fmt; <ParseWeekdayError as fmt::Display>::fmt;
-       <ParseWeekdayError as fmt::Debug>::fmt; <WeekdaySet as Debug>::fmt;
 
 *)
